@@ -45,6 +45,14 @@
 (* (kept as counterexample generator: ProxyDispatch_shared.cfg must        *)
 (* violate NoViolation).                                                   *)
 (*                                                                         *)
+(* PeelLosesError = TRUE is the Unwrap variant "peel every completed       *)
+(* nested result with `while ready(): value = value.value`": a call result *)
+(* that has already FAILED when the ContinueWith result is unwrapped (the  *)
+(* sink answered with an error at once, inside the dispatch greenlet) is   *)
+(* taken for the value None (ProxyDispatch_peel.cfg must violate           *)
+(* NoViolation).  A sink that answers inside AsyncProcessRequest is the    *)
+(* interleaving SinkRecv(c), Reply(s, k) with nothing in between.          *)
+(*                                                                         *)
 (* Not modelled: timeouts (C01), Close, a failing open, sinks between the  *)
 (* dispatcher and the recording sink.                                      *)
 (***************************************************************************)
@@ -53,7 +61,8 @@ EXTENDS ProxyCalls
 CONSTANTS NCalls,          \* calls made in a behaviour
           Design,          \* "chain" | "drain"
           SharedClosure,   \* drain only: completion closures share the loop variable
-          Kinds            \* outcomes the sink answers with: subset of {"value", "raise"}
+          Kinds,           \* outcomes the sink answers with: subset of {"value", "raise"}
+          PeelLosesError   \* chain only: Unwrap takes an already failed call result for the value None
 
 Cs == 1..NCalls
 Pending == [st |-> "pending", kind |-> "none", tok |-> 0]
@@ -69,11 +78,12 @@ VARIABLES openSt,      \* "pending" | "set" (ready, notifier queued) | "notified
           tgt,         \* early c -> the call whose `ret` c's completion closure sets
           callAr,      \* c -> result of _DispatchMethod
           noted,       \* c -> the call result's notifier has run
+          unw,         \* early c, chain -> the unwrapped result (target of Unwrap)
           ret,         \* early c -> the result handed to the caller
           spawned,     \* calls whose AsyncProcessRequest greenlet has not run yet
           sinkMsgs,    \* messages at the sink, in arrival order (seq = index) -> call
           viol
-ivars == <<openSt, queue, path, form, caller, stage, tgt, callAr, noted, ret, spawned, sinkMsgs>>
+ivars == <<openSt, queue, path, form, caller, stage, tgt, callAr, noted, unw, ret, spawned, sinkMsgs>>
 vars == <<ivars, cvars, viol>>
 
 \* what call c hands over: its own name and one argument that no other call uses
@@ -88,7 +98,7 @@ Init ==
   /\ caller = [c \in Cs |-> "idle"] /\ stage = [c \in Cs |-> "none"]
   /\ tgt = [c \in Cs |-> c]
   /\ callAr = [c \in Cs |-> NoAr] /\ noted = [c \in Cs |-> FALSE]
-  /\ ret = [c \in Cs |-> NoAr]
+  /\ ret = [c \in Cs |-> NoAr] /\ unw = [c \in Cs |-> NoAr]
   /\ spawned = {} /\ sinkMsgs = <<>>
   /\ CInit /\ viol = "ok"
 
@@ -111,7 +121,7 @@ DoCall(c, f) ==
             /\ stage' = [stage EXCEPT ![c] = "queued"]
             /\ UNCHANGED <<callAr, spawned>>
   /\ Note(CallCheck(c, f, TRUE, P(c))) /\ CallUpd(c, f, TRUE, P(c))
-  /\ UNCHANGED <<openSt, tgt, noted, sinkMsgs>>
+  /\ UNCHANGED <<openSt, tgt, noted, unw, sinkMsgs>>
 
 \* the result object the caller holds / waits on
 Held(c) == IF path[c] = "direct" THEN callAr[c] ELSE ret[c]
@@ -123,7 +133,7 @@ Returned(c) ==
        THEN LET k == IF Held(c).st = "set" THEN "completed" ELSE "pending"
             IN Note(RetCheck(c, k)) /\ RetUpd(c, k)
        ELSE UNCHANGED <<cvars, viol>>
-  /\ UNCHANGED <<openSt, queue, path, form, stage, tgt, callAr, noted, ret, spawned, sinkMsgs>>
+  /\ UNCHANGED <<openSt, queue, path, form, stage, tgt, callAr, noted, unw, ret, spawned, sinkMsgs>>
 
 \* the caller's greenlet / observer is switched to with the outcome
 Finish(c, ar) ==
@@ -134,7 +144,7 @@ Finish(c, ar) ==
 OpenSet ==
   /\ ~Returning /\ openSt = "pending"
   /\ openSt' = "set"
-  /\ UNCHANGED <<queue, path, form, caller, stage, tgt, callAr, noted, ret, spawned, sinkMsgs, cvars, viol>>
+  /\ UNCHANGED <<queue, path, form, caller, stage, tgt, callAr, noted, unw, ret, spawned, sinkMsgs, cvars, viol>>
 
 InQueue == {queue[i] : i \in DOMAIN queue}
 OpenNotify ==
@@ -147,12 +157,17 @@ OpenNotify ==
   /\ stage' = [c \in Cs |-> IF c \in InQueue THEN (IF Design = "chain" THEN "cw" ELSE "linked") ELSE stage[c]]
   /\ tgt' = [c \in Cs |-> IF c \in InQueue /\ Design = "drain" /\ SharedClosure
                             THEN queue[Len(queue)] ELSE tgt[c]]
-  /\ UNCHANGED <<path, form, caller, noted, ret, sinkMsgs, cvars, viol>>
+  /\ UNCHANGED <<path, form, caller, noted, unw, ret, sinkMsgs, cvars, viol>>
 
 \* ---------------------------------------------------------------- chain: Unwrap
 CwNotify(c) ==
   /\ ~Returning /\ stage[c] = "cw"
   /\ stage' = [stage EXCEPT ![c] = IF callAr[c].st = "set" THEN "target" ELSE "linked"]
+  \* the call result is already set: propagated at once (PeelLosesError: a failed one as the value None,
+  \* token 0, which is no answer's token)
+  /\ unw' = [unw EXCEPT ![c] = IF callAr[c].st # "set" THEN Pending
+                                ELSE IF PeelLosesError /\ callAr[c].kind = "raise" THEN SetTo("value", 0)
+                                ELSE callAr[c]]
   /\ UNCHANGED <<openSt, queue, path, form, caller, tgt, callAr, noted, ret, spawned, sinkMsgs, cvars, viol>>
 
 \* ---------------------------------------------------------------- the sink
@@ -161,45 +176,47 @@ SinkRecv(c) ==
   /\ spawned' = spawned \ {c}
   /\ sinkMsgs' = Append(sinkMsgs, c)
   /\ Note(RecvCheck(Len(sinkMsgs) + 1, P(c))) /\ RecvUpd(Len(sinkMsgs) + 1, P(c))
-  /\ UNCHANGED <<openSt, queue, path, form, caller, stage, tgt, callAr, noted, ret>>
+  /\ UNCHANGED <<openSt, queue, path, form, caller, stage, tgt, callAr, noted, unw, ret>>
 
 Reply(s, k) ==
   /\ ~Returning /\ s \in DOMAIN sinkMsgs /\ callAr[sinkMsgs[s]].st = "pending"
   /\ callAr' = [callAr EXCEPT ![sinkMsgs[s]] = SetTo(k, s)]
   /\ Note(ReplyCheck(s, k, s)) /\ ReplyUpd(s, k, s)
-  /\ UNCHANGED <<openSt, queue, path, form, caller, stage, tgt, noted, ret, spawned, sinkMsgs>>
+  /\ UNCHANGED <<openSt, queue, path, form, caller, stage, tgt, noted, unw, ret, spawned, sinkMsgs>>
 
 \* ---------------------------------------------------------------- completion
 \* complete(call_ar): `if ret.ready(): return` else copy value / exception
-Completed(c) == [ret EXCEPT ![tgt[c]] = IF @.st = "pending" THEN callAr[c] ELSE @]
+Completed(c) == LET src == IF Design = "chain" THEN unw[c] ELSE callAr[c]
+                IN [ret EXCEPT ![tgt[c]] = IF @.st = "pending" THEN src ELSE @]
 
 CallArNotify(c) ==
   /\ ~Returning /\ callAr[c].st = "set" /\ ~noted[c]
   /\ \/ /\ path[c] = "direct" /\ caller[c] = "waiting"
         /\ noted' = [noted EXCEPT ![c] = TRUE]
         /\ Finish(c, callAr[c])
-        /\ UNCHANGED <<stage, ret>>
+        /\ UNCHANGED <<stage, unw, ret>>
      \/ /\ path[c] = "early" /\ stage[c] = "linked" /\ Design = "chain"
         /\ noted' = [noted EXCEPT ![c] = TRUE]
         /\ stage' = [stage EXCEPT ![c] = "target"]
+        /\ unw' = [unw EXCEPT ![c] = callAr[c]]
         /\ UNCHANGED <<caller, ret, cvars, viol>>
      \/ /\ path[c] = "early" /\ stage[c] = "linked" /\ Design = "drain"
         /\ noted' = [noted EXCEPT ![c] = TRUE]
         /\ stage' = [stage EXCEPT ![c] = "completed"]
         /\ ret' = Completed(c)
-        /\ UNCHANGED <<caller, cvars, viol>>
+        /\ UNCHANGED <<caller, unw, cvars, viol>>
   /\ UNCHANGED <<openSt, queue, path, form, tgt, callAr, spawned, sinkMsgs>>
 
 TargetNotify(c) ==
   /\ ~Returning /\ stage[c] = "target"
   /\ stage' = [stage EXCEPT ![c] = "completed"]
   /\ ret' = Completed(c)
-  /\ UNCHANGED <<openSt, queue, path, form, caller, tgt, callAr, noted, spawned, sinkMsgs, cvars, viol>>
+  /\ UNCHANGED <<openSt, queue, path, form, caller, tgt, callAr, noted, unw, spawned, sinkMsgs, cvars, viol>>
 
 RetNotify(c) ==
   /\ ~Returning /\ path[c] = "early" /\ ret[c].st = "set" /\ caller[c] = "waiting"
   /\ Finish(c, ret[c])
-  /\ UNCHANGED <<openSt, queue, path, form, stage, tgt, callAr, noted, ret, spawned, sinkMsgs>>
+  /\ UNCHANGED <<openSt, queue, path, form, stage, tgt, callAr, noted, unw, ret, spawned, sinkMsgs>>
 
 Next ==
   \/ \E c \in Cs, f \in {"sync", "async"} : DoCall(c, f)
